@@ -201,9 +201,9 @@ def shard(part, n, seed, known):
 
 def run(ctx):
     jobs = [("vert", k, core.subseed(ctx.seed, "v", i), ctx.known_sigs)
-            for i, k in enumerate(core.split(ctx.n(3000, 200000), 12))]
+            for i, k in enumerate(core.split(ctx.n(15000, 300000), 12))]
     jobs += [("gridfile", k, core.subseed(ctx.seed, "g", i), ctx.known_sigs)
-             for i, k in enumerate(core.split(ctx.n(200, 6000), 4))]
+             for i, k in enumerate(core.split(ctx.n(800, 8000), 4))]
     stats = core.Stats()
     for s in core.pmap(shard, jobs):
         stats.merge(s)
